@@ -4,6 +4,7 @@
 mod util;
 mod m_canon;
 mod m_depfile;
+mod m_hist;
 mod m_load;
 mod m_db;
 mod m_render;
@@ -32,6 +33,7 @@ fn main() {
         "render" => m_render::run(&mut ctx),
         "db" => m_db::run(&mut ctx),
         "load" => m_load::run(&mut ctx),
+        "hist" => m_hist::run(&mut ctx),
         "sched" => m_sched::run(&mut ctx),
         _ => {
             eprintln!("unknown mode {mode}");
